@@ -98,7 +98,9 @@ Definition good_b (ls : list sline) : bool :=
   | _ => false
   end.
 
-Definition is_item (t : ftree) : bool := match t with FItem _ _ _ => true | _ => false end.
+Definition is_item (t : ftree) : bool := match t with FItem _ _ _ | FMore _ _ _ _ => true | _ => false end.
+(* the list type of a marker: the bullet character, or the delimiter of an ordered marker *)
+Definition mkey (mk : marker) : Z := match mk with MBullet b => b | MOrdered _ d => d end.
 Fixpoint seq_ok_b (ts : list ftree) : bool :=      (* two lists are never neighbours (they would be one list, or their blank line would be the first one's) *)
   match ts with
   | [] => false
@@ -127,6 +129,10 @@ Fixpoint wf_b (t : ftree) : bool :=
   | FItem mk pad ts =>
     marker_okb mk && Nat.leb 1 pad && Nat.leb pad 4 && seq_ok_b ts && forallb wf_b ts && good_b (join_blank (map spell ts)) &&
     negb (thematic_start (item_first_line mk pad (join_blank (map spell ts))))
+  | FMore mk pad ts next =>
+    marker_okb mk && Nat.leb 1 pad && Nat.leb pad 4 && seq_ok_b ts && forallb wf_b ts && good_b (join_blank (map spell ts)) &&
+    negb (thematic_start (item_first_line mk pad (join_blank (map spell ts)))) &&
+    is_item next && (mkey mk =? mkey (marker_of next)) && wf_b next      (* the rest of the list: same bullet / same delimiter *)
   | FHead lv c body =>
     Nat.leb 1 lv && Nat.leb lv 6 && plain_text (c :: body) && negb (mem 35 (c :: body)) && negb (mem 9 (c :: body)) &&
     negb (is_space_c c) && negb (is_space_c (last (c :: body) 0))
@@ -190,6 +196,96 @@ Proof.
   destruct r; [reflexivity|]. cbn [blank_entry app]. rewrite IH. reflexivity.
 Qed.
 
+Lemma app_cons_assoc {A} (a : list A) x b c : a ++ x :: b ++ c = (a ++ x :: b) ++ c.
+Proof. rewrite <- app_assoc. reflexivity. Qed.
+
+Lemma skipn_item {A} (x : A) (a : list A) y b n : n = length a -> skipn (S (S n)) ((x :: a) ++ y :: b) = b.
+Proof.
+  intros ->. change (skipn (S (S (length a))) ((x :: a) ++ y :: b)) with (skipn (S (length a)) (a ++ y :: b)).
+  rewrite skipn_app, skipn_all2 by lia. replace (S (length a) - length a)%nat with 1%nat by lia. reflexivity.
+Qed.
+
+(* ---- lists of several items ---- *)
+Lemma all_decimal_digits ds : ds <> [] -> Forall (fun x => 48 <= x <= 57) ds -> all_decimal ds = true.
+Proof.
+  intros Hne H. destruct ds as [|x r]; [contradiction|]. unfold all_decimal. apply forallb_forall. intros y Hy.
+  rewrite Forall_forall in H. specialize (H y Hy).
+  assert (y = 48 \/ y = 49 \/ y = 50 \/ y = 51 \/ y = 52 \/ y = 53 \/ y = 54 \/ y = 55 \/ y = 56 \/ y = 57) as D by lia.
+  repeat (destruct D as [->|D]; [vm_compute; reflexivity|]). subst y. vm_compute. reflexivity.
+Qed.
+
+Lemma last_char_snoc ds d : last_char (ds ++ [d]) = d.
+Proof. unfold last_char. apply last_last. Qed.
+
+(* List.same_marker_type on well-formed markers: the same bullet character, or the same delimiter *)
+Lemma same_marker_key a b : marker_ok a -> marker_ok b -> same_marker_type (marker_str a) (marker_str b) = (mkey a =? mkey b).
+Proof.
+  intros Ha Hb. unfold same_marker_type. destruct a as [x|ds d], b as [y|ds' d']; cbn [marker_str mkey marker_ok] in *.
+  - cbn [slen length Z.of_nat Pos.of_succ_nat Z.eqb Pos.eqb str_eqb]. rewrite andb_true_r. reflexivity.
+  - destruct Hb as (Hne & _ & _ & Hd). cbn [slen length Z.of_nat Pos.of_succ_nat Z.eqb Pos.eqb].
+    destruct ds' as [|y r]; [contradiction|]. cbn [app str_eqb]. destruct r; cbn [app str_eqb]; rewrite ?andb_false_r;
+      symmetry; apply Z.eqb_neq; destruct Ha as [->|[->| ->]], Hd as [->| ->]; discriminate.
+  - destruct Ha as (Hne & _ & _ & Hd). unfold slen. rewrite app_length. cbn [length].
+    destruct ds as [|x r]; [contradiction|]. cbn [length].
+    destruct (Z.of_nat (S (length r) + 1) =? 1) eqn:E; [apply Z.eqb_eq in E; lia|].
+    cbn [removelast all_decimal]. rewrite andb_false_r. cbn [andb].
+    symmetry; apply Z.eqb_neq; destruct Hb as [->|[->| ->]], Hd as [->| ->]; discriminate.
+  - destruct Ha as (Hne & _ & Hds & Hd). destruct Hb as (Hne' & _ & Hds' & Hd').
+    unfold slen. rewrite app_length. cbn [length]. destruct ds as [|x r]; [contradiction|]. cbn [length].
+    destruct (Z.of_nat (S (length r) + 1) =? 1) eqn:E; [apply Z.eqb_eq in E; lia|].
+    rewrite !removelast_last, !last_char_snoc, (all_decimal_digits (x :: r) Hne Hds), (all_decimal_digits ds' Hne' Hds'). reflexivity.
+Qed.
+
+Fixpoint chain_len (t : ftree) : nat := match t with FMore _ _ _ next => S (chain_len next) | _ => 1%nat end.
+
+Section Chain.
+  Variable md : bool.
+  (* the items of a list, as the pre-tokens List.read returns them *)
+  Fixpoint chain_items (ln : Z) (t : ftree) : list pre :=
+    match t with
+    | FItem mk pad ts => [PItem ln (pre_seq md ln ts) (negb md && (1 <? Z.of_nat (length ts))) 0 (Z.of_nat (length (marker_str mk) + pad)) (marker_str mk)]
+    | FMore mk pad ts next =>
+      let h := Z.of_nat (length (item_lines mk pad (join_blank (map spell ts)))) in
+      PItem ln (pre_seq md ln ts ++ blank_entry md (ln + h)) (negb md) 0 (Z.of_nat (length (marker_str mk) + pad)) (marker_str mk) :: chain_items (ln + h + 1) next
+    | _ => []
+    end.
+
+  Lemma pre_of_more ln mk pad ts next :
+    pre_of md ln (FMore mk pad ts next) =
+    let h := Z.of_nat (length (item_lines mk pad (join_blank (map spell ts)))) in
+    match pre_of md (ln + h + 1) next with
+    | PList _ items => PList ln (PItem ln (pre_seq md ln ts ++ blank_entry md (ln + h)) (negb md) 0 (Z.of_nat (length (marker_str mk) + pad)) (marker_str mk) :: items)
+    | other => other
+    end.
+  Proof. reflexivity. Qed.
+
+  Lemma pre_of_chain : forall t ln, is_item t = true -> wf_b t = true -> pre_of md ln t = PList ln (chain_items ln t).
+  Proof.
+    induction t as [| | | mk pad ts | mk pad ts next IH | | | ]; intros ln Hi Hw; try discriminate.
+    - reflexivity.
+    - rewrite pre_of_more. cbv zeta. cbn [wf_b] in Hw. repeat rewrite andb_true_iff in Hw. destruct Hw as [[[_ Hin] _] Hwn].
+      rewrite (IH _ Hin Hwn). reflexivity.
+  Qed.
+
+  Lemma chain_items_nonempty t ln : is_item t = true -> chain_items ln t <> [].
+  Proof. destruct t; try discriminate; intros _; discriminate. Qed.
+End Chain.
+
+(* List.read's last step: the last item is loose only if it holds more than one block *)
+Definition fix_last (items : list pre) : list pre :=
+  match rev items with
+  | PItem l e lo i p ld :: before => rev (PItem l e ((1 <? nlines (length e)) && lo) i p ld :: before)
+  | _ => items
+  end.
+Lemma fix_last_cons x y r : fix_last (x :: y :: r) = x :: fix_last (y :: r).
+Proof.
+  unfold fix_last. change (rev (x :: y :: r)) with (rev (y :: r) ++ [x]).
+  destruct (rev (y :: r)) as [|z before] eqn:E.
+  - apply (f_equal (@length pre)) in E. rewrite rev_length in E. discriminate.
+  - cbn [app]. destruct z; try reflexivity.
+    cbn [rev]. rewrite rev_app_distr. cbn [rev app]. reflexivity.
+Qed.
+
 Section Main.
   Variable types : list block_kind.
   Variable md : bool.
@@ -209,7 +305,7 @@ Section Main.
   (* what may follow a block after a blank line: anything, except that after a list it must be a line that is neither a
      continuation of the item nor a list marker *)
   Definition follower_ok (t : ftree) (B : list str) : Prop :=
-    is_item t = false \/
+    is_item t = false \/ B = [] \/
     exists l2 more, B = l2 :: more /\ (forall p, 0 < p -> parse_continuation l2 p = None) /\ parse_marker l2 = None.
 
   (* a block as the reader sees it when a blank line and more text follow *)
@@ -432,7 +528,7 @@ Section Main.
   Lemma first_line_follower t : is_item t = false -> wf_b t = true ->
     exists l2 more, text_of (spell t) = l2 :: more /\ (forall p, 0 < p -> parse_continuation l2 p = None) /\ parse_marker l2 = None.
   Proof.
-    intros Hi Hw. destruct t as [c body more|ch n content|ts|mk pad ts|lv hc hb|rc rn|e0 epre ech edbl ew epost]; [| | |discriminate| | |].
+    intros Hi Hw. destruct t as [c body more|ch n content|ts|mk pad ts|mk pad ts next|lv hc hb|rc rn|e0 epre ech edbl ew epost]; [| | |discriminate|discriminate| | |].
     - destruct (wf_para c body more Hw) as (Hw' & Hnm & _).
       destruct Hw' as (Hf1 & _ & _ & _). cbn [hd] in Hf1.
       assert (Hc : first_ok c = true).
@@ -487,13 +583,265 @@ Section Main.
         rewrite rmatch_first by exact Hnm. reflexivity.
   Qed.
 
-  Lemma C_from f : (forall f', f = S f' -> Q f') -> C f.
+  (* ---- lists: List.read over the items of a list ---- *)
+  Definition QN (f : nat) : Prop := forall ts ln st, seq_ok_b ts = true -> forallb wf_b ts = true -> Forall (fun t => (depth t <= f)%nat) ts ->
+    tokenize_block types (S f) (text_of (join_blank (map spell ts)) ++ [NL]) ln st =
+    (pre_seq md ln ts ++ blank_entry md (ln + Z.of_nat (length (join_blank (map spell ts)))), negb md, st_seq st ts).
+
+  Definition chain_tail_ok (tail : list str) : Prop :=
+    tail = [] \/ tail = [NL] \/
+    exists l2 more, tail = NL :: l2 :: more /\ (forall p, 0 < p -> parse_continuation l2 p = None) /\ parse_marker l2 = None.
+  Lemma chain_tail_w w tail : (0 < w)%nat -> chain_tail_ok tail -> tail_ok w tail.
   Proof.
-    intros HQ t ln st Hw Hd. destruct t as [c body more|ch n content|ts|mk pad ts|lv hc hb|rc rn|e0 epre ech edbl ew epost].
+    intros Hw [->|[->|(l2 & more & -> & Hc & Hm)]]; [left; reflexivity|right; left; reflexivity|].
+    right. right. exists l2, more. split; [reflexivity|]. split; [apply Hc; lia|exact Hm].
+  Qed.
+
+  Definition leader_ok (leader : option str) (t : ftree) : Prop :=
+    match leader with None => True | Some l => exists mk0, marker_ok mk0 /\ l = marker_str mk0 /\ mkey mk0 = mkey (marker_of t) end.
+
+  Lemma read_item_prev rec line r ln m st : parse_marker line = Some m ->
+    read_item types rec (line :: r) ln (Some m) st = read_item types rec (line :: r) ln None st.
+  Proof. intros H. unfold read_item. rewrite H. reflexivity. Qed.
+
+  Lemma item_parts mk pad ts :
+    marker_okb mk && Nat.leb 1 pad && Nat.leb pad 4 && seq_ok_b ts && forallb wf_b ts && good_b (join_blank (map spell ts)) &&
+    negb (thematic_start (item_first_line mk pad (join_blank (map spell ts)))) = true ->
+    marker_ok mk /\ (1 <= pad <= 4)%nat /\ seq_ok_b ts = true /\ forallb wf_b ts = true /\
+    exists c0 body0 rest, join_blank (map spell ts) = SLine 0 c0 body0 :: rest /\ nonspace c0 = true /\ mem 10 body0 = false /\
+      Forall sline_ok rest /\ last_not_blank (SLine 0 c0 body0 :: rest) /\
+      thematic_start (marker_str mk ++ repeat 32 pad ++ c0 :: body0 ++ [10]) = false.
+  Proof.
+    intros Hw. repeat rewrite andb_true_iff in Hw. destruct Hw as [[[[[[Hmk Hp1] Hp4] Hs] Hall] Hg] Hth].
+    apply marker_ok_reflect in Hmk. apply Nat.leb_le in Hp1, Hp4. apply negb_true_iff in Hth.
+    destruct (good_lines _ Hg) as (c0 & body0 & rest & El & Hc0 & Hb0 & Hrest & Hlast & _ & _).
+    rewrite El in *. cbn [item_first_line] in Hth.
+    split; [exact Hmk|]. split; [split; assumption|]. split; [exact Hs|]. split; [exact Hall|].
+    exists c0, body0, rest. repeat split; assumption.
+  Qed.
+
+  Lemma item_lines_length mk pad l rest : marker_ok mk -> length (item_lines mk pad (SLine 0 (fst l) (snd l) :: rest)) = S (length rest).
+  Proof.
+    intros Hmk. destruct (marker_first mk Hmk) as (m0 & mr & Em & _). unfold item_lines. rewrite Em. cbn [length]. rewrite map_length. reflexivity.
+  Qed.
+
+  Lemma marker_no_nl mk : marker_ok mk -> mem 10 (marker_str mk) = false.
+  Proof.
+    destruct mk as [b|ds d]; cbn [marker_ok marker_str].
+    - intros [->|[->| ->]]; reflexivity.
+    - intros (_ & _ & Hd & Hdel). unfold mem. rewrite existsb_app. cbn [existsb]. apply orb_false_iff. split.
+      + rewrite Forall_forall in Hd. destruct (existsb (Z.eqb 10) ds) eqn:E; [|reflexivity].
+        apply existsb_exists in E as (x & Hx & Ex). apply Z.eqb_eq in Ex. subst x. specialize (Hd 10 Hx). lia.
+      + destruct Hdel as [->| ->]; reflexivity.
+  Qed.
+
+  Lemma marker_line_cont mk pad c0 body0 : marker_ok mk -> mem 10 body0 = false -> nonspace c0 = true ->
+    forall p, 0 < p -> parse_continuation (marker_str mk ++ repeat 32 pad ++ c0 :: body0 ++ [10]) p = None.
+  Proof.
+    intros Hmk Hb0 Hc0 p Hp0. pose proof (marker_no_nl mk Hmk) as Hn.
+    destruct (marker_first mk Hmk) as (m0 & mr & Em & Hm0). rewrite Em in *.
+    replace ((m0 :: mr) ++ repeat 32 pad ++ c0 :: body0 ++ [10]) with (line_of 0 m0 (mr ++ repeat 32 pad ++ c0 :: body0))
+      by (unfold line_of; cbn [repeat app]; rewrite <- !app_assoc; reflexivity).
+    apply parse_continuation_short; [| |exact Hp0].
+    - apply nonspace_first_ok. unfold nonspace. unfold mfirst_ok in Hm0. repeat rewrite andb_true_iff in Hm0.
+      destruct Hm0 as [[[[_ H3] _] _] _]. exact H3.
+    - unfold mem in *. cbn [existsb] in Hn. apply orb_false_iff in Hn as [_ Hn]. rewrite !existsb_app. rewrite Hn.
+      fold (mem 10 (repeat 32 pad)). rewrite (mem_repeat 10 32) by lia. cbn [existsb orb].
+      pose proof (nonspace_first_ok c0 Hc0) as F. unfold first_ok in F. apply negb_true_iff in F. apply orb_false_iff in F as [_ F10].
+      rewrite Z.eqb_sym, F10. exact Hb0.
+  Qed.
+
+  (* the first line of a list: a marker line *)
+  Lemma chain_first_line t : is_item t = true -> wf_b t = true ->
+    marker_ok (marker_of t) /\
+    exists l2 more i p ct, text_of (spell t) = l2 :: more /\ (forall q, 0 < q -> parse_continuation l2 q = None) /\
+      parse_marker l2 = Some (i, p, marker_str (marker_of t), ct) /\ thematic_start l2 = false /\
+      exists m0 t0, l2 = m0 :: t0 /\ mfirst_ok m0 = true.
+  Proof.
+    intros Hi Hw.
+    assert (G : forall mk pad ts tl, (marker_okb mk && Nat.leb 1 pad && Nat.leb pad 4 && seq_ok_b ts && forallb wf_b ts && good_b (join_blank (map spell ts)) &&
+                 negb (thematic_start (item_first_line mk pad (join_blank (map spell ts)))) = true) ->
+               marker_ok mk /\ exists l2 more i p ct, text_of (item_lines mk pad (join_blank (map spell ts)) ++ tl) = l2 :: more /\
+                 (forall q, 0 < q -> parse_continuation l2 q = None) /\ parse_marker l2 = Some (i, p, marker_str mk, ct) /\ thematic_start l2 = false /\
+                 exists m0 t0, l2 = m0 :: t0 /\ mfirst_ok m0 = true).
+    { intros mk pad ts tl H. destruct (item_parts mk pad ts H) as (Hmk & Hpad & _ & _ & c0 & body0 & rest & El & Hc0 & Hb0 & _ & _ & Hth).
+      split; [exact Hmk|]. rewrite El. unfold text_of. rewrite map_app. fold (text_of (item_lines mk pad (SLine 0 c0 body0 :: rest))).
+      rewrite text_item by exact Hmk. cbn [app].
+      eexists. eexists. eexists. eexists. eexists. split; [reflexivity|]. split; [apply marker_line_cont; assumption|].
+      split; [apply (parse_marker_line mk pad c0 body0 Hmk Hpad Hc0)|]. split; [exact Hth|].
+      destruct (marker_first mk Hmk) as (m0 & mr & Em & Hm0). rewrite Em. eexists. eexists. split; [reflexivity|exact Hm0]. }
+    destruct t as [c body more|ch n content|ts|mk pad ts|mk pad ts next|lv hc hb|rc rn|e0 epre ech edbl ew epost]; try discriminate.
+    - cbn [wf_b] in Hw. cbn [spell marker_of]. rewrite <- (app_nil_r (item_lines mk pad _)). apply G. exact Hw.
+    - cbn [wf_b] in Hw. repeat rewrite andb_true_iff in Hw. destruct Hw as [[[Hw _] _] _]. cbn [spell marker_of]. apply G.
+      repeat rewrite andb_true_iff. exact Hw.
+  Qed.
+
+  Section ChainRead.
+    Variable f' : nat.
+    Hypothesis HQ : Q f'.
+    Hypothesis HQN : QN f'.
+
+    Lemma chain_read : forall t, is_item t = true -> wf_b t = true -> (depth t <= S f')%nat ->
+      forall tail, chain_tail_ok tail ->
+      forall fuel ln st leader prev acc consumed,
+        (chain_len t <= fuel)%nat -> leader_ok leader t ->
+        (prev = None \/ prev = parse_marker (hd [] (text_of (spell t)))) ->
+        read_list types (tokenize_block types (S f')) fuel (text_of (spell t) ++ tail) ln leader prev acc consumed st =
+        (rev acc ++ chain_items md ln t, (consumed + length (text_of (spell t)))%nat, st_after st t).
+    Proof.
+      induction t as [| | | mk pad ts | mk pad ts next IH | | | ]; intros Hi Hw Hd tail Htail fuel ln st leader prev acc consumed Hn Hlead Hprev; try discriminate.
+      - (* the last item *)
+        cbn [wf_b] in Hw. destruct (item_parts mk pad ts Hw) as (Hmk & Hpad & Hs & Hall & c0 & body0 & rest & El & Hc0 & Hb0 & Hrest & Hlast & Hth).
+        cbn [spell chain_items st_after] in *. rewrite El in *. rewrite text_item in * by exact Hmk. cbn [hd] in Hprev.
+        destruct fuel as [|n']; [cbn [chain_len] in Hn; lia|]. cbn [read_list].
+        cbn [app].
+        match goal with |- context [read_item ?a ?b ?c ln prev st] => replace (read_item a b c ln prev st) with (read_item a b c ln None st) end.
+        2:{ destruct Hprev as [->| ->]; [reflexivity|]. rewrite (parse_marker_line mk pad c0 body0 Hmk Hpad Hc0).
+            symmetry. apply read_item_prev. apply (parse_marker_line mk pad c0 body0 Hmk Hpad Hc0). }
+        pose proof (read_item_tail types (tokenize_block types (S f')) mk pad c0 body0 rest tail Hmk Hpad Hc0 Hrest Hlast
+                      (chain_tail_w (length (marker_str mk) + pad) tail ltac:(lia) Htail) ln st) as RI. cbn [app] in RI.
+        match type of RI with _ = ?R => match goal with |- context [read_item ?a ?b ?c ln None st] => replace (read_item a b c ln None st) with R by (symmetry; exact RI) end end. clear RI.
+        change (map render_line (SLine 0 c0 body0 :: rest)) with (text_of (SLine 0 c0 body0 :: rest)). rewrite <- El.
+        cbn [depth] in Hd. rewrite (HQ ts ln st Hs Hall (children_depth ts f' Hd)).
+        assert (Eok : match leader with None => true | Some l => same_marker_type l (marker_str mk) end = true).
+        { destruct leader as [l|]; [|reflexivity]. destruct Hlead as (mk0 & Hmk0 & -> & Hk). cbn [marker_of] in Hk.
+          rewrite (same_marker_key mk0 mk Hmk0 Hmk), Hk. apply Z.eqb_refl. }
+        rewrite Eok. cbn [negb rev length]. rewrite map_length. unfold st_seq. reflexivity.
+      - (* an item followed by more of the list *)
+        cbn [wf_b] in Hw. repeat rewrite andb_true_iff in Hw. destruct Hw as [[[Hw Hin] Hk] Hwn]. apply Z.eqb_eq in Hk.
+        assert (Hw' : marker_okb mk && Nat.leb 1 pad && Nat.leb pad 4 && seq_ok_b ts && forallb wf_b ts && good_b (join_blank (map spell ts)) &&
+                      negb (thematic_start (item_first_line mk pad (join_blank (map spell ts)))) = true) by (repeat rewrite andb_true_iff; exact Hw).
+        destruct (item_parts mk pad ts Hw') as (Hmk & Hpad & Hs & Hall & c0 & body0 & rest & El & Hc0 & Hb0 & Hrest & Hlast & Hth).
+        destruct (chain_first_line next Hin Hwn) as (Hmk2 & l2 & more2 & i2 & p2 & ct2 & E2 & Hc2 & Hm2 & Ht2 & _).
+        cbn [depth] in Hd.
+        assert (Hd1 : (S (fold_right (fun t m => Nat.max (depth t) m) 0%nat ts) <= S f')%nat) by lia.
+        assert (Hd2 : (depth next <= S f')%nat) by lia.
+        assert (Ehd : hd [] (text_of (spell (FMore mk pad ts next))) = marker_str mk ++ repeat 32 pad ++ c0 :: body0 ++ [10]).
+        { cbn [spell]. rewrite El. unfold text_of. rewrite map_app. fold (text_of (item_lines mk pad (SLine 0 c0 body0 :: rest))).
+          rewrite text_item by exact Hmk. reflexivity. }
+        rewrite Ehd in Hprev. clear Ehd.
+        cbn [spell chain_items st_after]. rewrite El in *. unfold text_of at 1 2. rewrite map_app. cbn [map render_line].
+        fold (text_of (item_lines mk pad (SLine 0 c0 body0 :: rest))). fold (text_of (spell next)).
+        rewrite text_item in * by exact Hmk. cbn [hd app] in Hprev.
+        destruct fuel as [|n']; [cbn [chain_len] in Hn; lia|]. cbn [chain_len] in Hn. cbn [read_list].
+        set (L := marker_str mk ++ repeat 32 pad ++ c0 :: body0 ++ [10]) in *.
+        set (w := (length (marker_str mk) + pad)%nat) in *.
+        match goal with |- context [read_item _ _ ?A ln prev st] =>
+          replace A with ((L :: map (embed_line w) rest) ++ NL :: (text_of (spell next) ++ tail)) by (apply app_cons_assoc) end.
+        rewrite E2. cbn [app].
+        match goal with |- context [read_item ?a ?b ?c ln prev st] => replace (read_item a b c ln prev st) with (read_item a b c ln None st) end.
+        2:{ destruct Hprev as [->| ->]; [reflexivity|]. pose proof (parse_marker_line mk pad c0 body0 Hmk Hpad Hc0) as PM. fold L in PM. rewrite PM.
+            cbn [app]. symmetry. apply read_item_prev. exact PM. }
+        assert (Hi2 : item_interrupt types (l2 :: more2 ++ tail) = false).
+        { unfold item_interrupt. rewrite Hm2, Ht2. apply andb_false_r. }
+        assert (Hs2 : same_marker_type (marker_str mk) (marker_str (marker_of next)) = true).
+        { rewrite (same_marker_key mk (marker_of next) Hmk Hmk2), Hk. apply Z.eqb_refl. }
+        pose proof (read_item_next types (tokenize_block types (S f')) mk pad c0 body0 rest Hmk Hpad Hc0 Hrest Hlast
+                      l2 (more2 ++ tail) (i2, p2, marker_str (marker_of next), ct2) ln st (Hc2 (Z.of_nat w) ltac:(unfold w; lia)) Hi2 Hm2 Hs2) as RI.
+        fold L w in RI.
+        match type of RI with _ = ?R => match goal with |- context [read_item ?a ?b ?c ln None st] => replace (read_item a b c ln None st) with R by (symmetry; exact RI) end end. clear RI.
+        change (map render_line (SLine 0 c0 body0 :: rest)) with (text_of (SLine 0 c0 body0 :: rest)). rewrite <- El.
+        rewrite (HQN ts ln st Hs Hall (children_depth ts f' Hd1)).
+        assert (Eok : match leader with None => true | Some l => same_marker_type l (marker_str mk) end = true).
+        { destruct leader as [l|]; [|reflexivity]. destruct Hlead as (mk0 & Hmk0 & -> & Hk0). cbn [marker_of] in Hk0.
+          rewrite (same_marker_key mk0 mk Hmk0 Hmk), Hk0. apply Z.eqb_refl. }
+        rewrite Eok. cbn [negb].
+        assert (Esk : skipn (S (S (length rest))) ((L :: map (embed_line w) rest) ++ NL :: l2 :: more2 ++ tail) = text_of (spell next) ++ tail).
+        { rewrite E2. apply skipn_item. rewrite map_length. reflexivity. }
+        match goal with |- context [@skipn ?T ?k ?A] => replace (@skipn T k A) with (text_of (spell next) ++ tail) by (symmetry; exact Esk) end.
+        assert (Eh : Z.of_nat (length (item_lines mk pad (join_blank (map spell ts)))) = Z.of_nat (S (length rest))).
+        { rewrite El. f_equal. apply (item_lines_length mk pad (c0, body0) rest Hmk). }
+        rewrite (IH Hin Hwn Hd2 tail Htail n' (ln + nlines (S (S (length rest)))) (st_seq st ts)
+                    (match leader with None => Some (marker_str mk) | Some _ => leader end) (Some (i2, p2, marker_str (marker_of next), ct2))).
+        + rewrite Eh. unfold nlines. replace (ln + Z.of_nat (S (S (length rest)))) with (ln + Z.of_nat (S (length rest)) + 1) by lia.
+          cbn [rev]. rewrite <- app_assoc. cbn [app]. unfold st_seq. rewrite El. cbn [length].
+          assert (Elen : (consumed + S (S (length rest)) + length (text_of (spell next)) =
+                          consumed + S (length (map (embed_line w) rest ++ NL :: l2 :: more2)))%nat).
+          { rewrite app_length, map_length, E2. cbn [length]. lia. }
+          rewrite Elen. reflexivity.
+        + lia.
+        + destruct leader as [l|].
+          * destruct Hlead as (mk0 & Hmk0 & -> & Hk0). cbn [marker_of] in Hk0. exists mk0. repeat split; [exact Hmk0|congruence].
+          * exists mk. repeat split; [exact Hmk|exact Hk].
+        + right. rewrite E2. cbn [hd]. symmetry. exact Hm2.
+    Qed.
+
+    (* the whole list, as the dispatch loop's readers see it *)
+    Lemma chain_start_read t tail ln st : is_item t = true -> wf_b t = true -> (depth t <= S f')%nat -> chain_tail_ok tail ->
+      start_read types (tokenize_block types (S f')) BK_List (text_of (spell t) ++ tail) ln st =
+      Some (pre_of md ln t, length (text_of (spell t)), st_after st t).
+    Proof.
+      intros Hi Hw Hd Htail. destruct (chain_first_line t Hi Hw) as (Hmk & l2 & more & i & p & ct & E2 & Hc2 & Hm2 & Ht2 & _).
+      unfold start_read. rewrite E2. cbn [app].
+      assert (Ls : list_start l2 = true).
+      { assert (G : forall mk pad ts tl, (marker_okb mk && Nat.leb 1 pad && Nat.leb pad 4 && seq_ok_b ts && forallb wf_b ts && good_b (join_blank (map spell ts)) &&
+                 negb (thematic_start (item_first_line mk pad (join_blank (map spell ts)))) = true) ->
+                 list_start (hd [] (text_of (item_lines mk pad (join_blank (map spell ts)) ++ tl))) = true).
+        { intros mk pad ts tl H. destruct (item_parts mk pad ts H) as (Hmk' & Hpad & _ & _ & c0 & body0 & rest & El & Hc0 & Hb0 & _ & _ & Hth).
+          rewrite El. unfold text_of. rewrite map_app. fold (text_of (item_lines mk pad (SLine 0 c0 body0 :: rest))).
+          rewrite text_item by exact Hmk'. cbn [app hd].
+          apply (list_start_line mk pad c0 body0 Hmk' (proj1 Hpad)). apply nonspace_first_ok. exact Hc0. }
+        replace l2 with (hd [] (text_of (spell t))) by (rewrite E2; reflexivity).
+        destruct t as [ | | |mk pad ts|mk pad ts next| | | ]; try discriminate.
+        - cbn [wf_b] in Hw. cbn [spell]. rewrite <- (app_nil_r (item_lines mk pad _)). apply G. exact Hw.
+        - cbn [wf_b] in Hw. repeat rewrite andb_true_iff in Hw. destruct Hw as [[[Hw _] _] _]. cbn [spell]. apply G.
+          repeat rewrite andb_true_iff. exact Hw. }
+      rewrite Ls. change (l2 :: more ++ tail) with ((l2 :: more) ++ tail). rewrite <- E2.
+      assert (Hlen : (chain_len t <= S (length (text_of (spell t) ++ tail)))%nat).
+      { clear -Hi. assert (G : forall t0, (chain_len t0 <= S (length (text_of (spell t0))))%nat).
+        { induction t0 as [| | | | mk0 pad0 ts0 next0 IHn | | | ]; cbn [chain_len]; try lia. cbn [spell]. unfold text_of in *. rewrite map_length in *. rewrite app_length. cbn [length]. lia. }
+        specialize (G t). rewrite app_length. lia. }
+      rewrite (chain_read t Hi Hw Hd tail Htail (S (length (text_of (spell t) ++ tail))) ln st None None [] 0%nat Hlen I (or_introl eq_refl)).
+      cbn [rev app Nat.add]. rewrite (pre_of_chain md t ln Hi Hw).
+      assert (Efix : fix_last (chain_items md ln t) = chain_items md ln t).
+      { clear -Hi Hw. revert ln. induction t as [| | | mk pad ts | mk pad ts next IH | | | ]; intros ln; try discriminate.
+        - cbn [chain_items]. unfold fix_last. cbn [rev app]. f_equal. f_equal.
+          destruct md; [cbn [negb andb]; apply andb_false_r|]. cbn [negb andb]. rewrite pre_seq_length. unfold nlines. apply andb_diag.
+        - cbn [wf_b] in Hw. repeat rewrite andb_true_iff in Hw. destruct Hw as [[[_ Hin] _] Hwn].
+          cbn [chain_items]. cbv zeta. pose proof (chain_items_nonempty md next (ln + Z.of_nat (length (item_lines mk pad (join_blank (map spell ts)))) + 1) Hin) as Hne.
+          destruct (chain_items md _ next) as [|y r] eqn:Ec; [contradiction|].
+          rewrite fix_last_cons. f_equal. rewrite <- Ec. apply IH; assumption. }
+      unfold fix_last in Efix. cbn [rev] in Efix. rewrite Efix. reflexivity.
+    Qed.
+  End ChainRead.
+
+  Lemma try_types_list_gen rec m0 t rest v ln st : mfirst_ok m0 = true -> thematic_start (m0 :: t) = false ->
+    start_read types rec BK_List ((m0 :: t) :: rest) ln st = Some v ->
+    forall ts, list_first ts = true -> try_types types rec ts ((m0 :: t) :: rest) ln st = Some v.
+  Proof.
+    intros Hm0 Hth SR. induction ts as [|k ts IH]; intros Hl'; [discriminate|]. cbn [try_types].
+    destruct (other_kind k) eqn:Ek.
+    - rewrite start_read_other_kind by assumption. apply IH. destruct k; try discriminate; exact Hl'.
+    - destruct k; try discriminate. rewrite SR. reflexivity.
+  Qed.
+
+  Lemma depth_item t : is_item t = true -> (1 <= depth t)%nat.
+  Proof. destruct t; try discriminate; intros _; cbn [depth]; lia. Qed.
+
+  Lemma C_list f : (forall f', f = S f' -> Q f' /\ QN f') -> forall t ln st, is_item t = true -> wf_b t = true -> (depth t <= f)%nat ->
+    text_of (spell t) <> [] /\
+    forall B, follower_ok t B ->
+              try_types types (tokenize_block types f) types (text_of (spell t) ++ NL :: B) ln st =
+              Some (pre_of md ln t, length (text_of (spell t)), st_after st t).
+  Proof.
+    intros HQ t ln st Hi Hw Hd. pose proof (depth_item t Hi) as H1.
+    destruct f as [|f']; [lia|]. destruct (HQ f' eq_refl) as [HQ' HQN'].
+    destruct (chain_first_line t Hi Hw) as (_ & l2 & more & i & p & ct & E2 & _ & _ & Ht2 & m0 & t0 & -> & Hm0).
+    split; [rewrite E2; discriminate|]. intros B Hfol.
+    assert (Htail : chain_tail_ok (NL :: B)).
+    { destruct Hfol as [Hni|[->|(l3 & more3 & -> & Hc & Hm)]]; [congruence|right; left; reflexivity|].
+      right. right. exists l3, more3. repeat split; assumption. }
+    pose proof (chain_start_read f' HQ' HQN' t (NL :: B) ln st Hi Hw Hd Htail) as SR.
+    rewrite E2 in *. cbn [app] in *. apply (try_types_list_gen _ m0 t0 _ _ ln st Hm0 Ht2 SR types Hl).
+  Qed.
+
+  Lemma C_from f : (forall f', f = S f' -> Q f' /\ QN f') -> C f.
+  Proof.
+    intros HQ t ln st Hw Hd. destruct t as [c body more|ch n content|ts|mk pad ts|mk pad ts next|lv hc hb|rc rn|e0 epre ech edbl ew epost].
     - split; [cbn [spell text_of map]; discriminate|]. intros B _. rewrite para_try_app by exact Hw. reflexivity.
     - split; [destruct (fence_wf ch n content Hw) as ((_ & H3) & _); rewrite fence_text by lia; discriminate|].
       intros B _. rewrite fence_try by exact Hw. reflexivity.
-    - destruct f as [|f']; [cbn [depth] in Hd; lia|]. specialize (HQ f' eq_refl).
+    - destruct f as [|f']; [cbn [depth] in Hd; lia|]. destruct (HQ f' eq_refl) as [HQ' _]. clear HQ. rename HQ' into HQ.
       cbn [wf_b] in Hw. repeat rewrite andb_true_iff in Hw. destruct Hw as [[Hs Hall] Hg].
       destruct (good_lines _ Hg) as (c0 & body0 & rest & El & _ & _ & _ & _ & Hok & Hne).
       cbn [spell]. rewrite text_quote. remember (text_of (join_blank (map spell ts))) as inner eqn:Ei.
@@ -508,21 +856,8 @@ Section Main.
       destruct (T1 _ _ _ T eq_refl) as (E & _ & _).
       change ((qline true l :: map (qline true) ls) ++ NL :: B) with (qline true l :: map (qline true) ls ++ NL :: B).
       rewrite E. rewrite pre_of_quote. cbn [st_after length]. rewrite map_length. reflexivity.
-    - destruct f as [|f']; [cbn [depth] in Hd; lia|]. specialize (HQ f' eq_refl).
-      cbn [wf_b] in Hw. repeat rewrite andb_true_iff in Hw. destruct Hw as [[[[[[Hmk Hp1] Hp4] Hs] Hall] Hg] Hth].
-      apply marker_ok_reflect in Hmk. apply Nat.leb_le in Hp1, Hp4. apply negb_true_iff in Hth.
-      destruct (good_lines _ Hg) as (c0 & body0 & rest & El & Hc0 & Hb0 & Hrest & Hlast & _ & _).
-      cbn [spell]. rewrite El in *. rewrite text_item by exact Hmk. cbn [item_first_line] in Hth.
-      split; [discriminate|]. intros B [Hfo|(l2 & more & -> & Hcont & Hmark)]; [discriminate|].
-      assert (Htail : tail_ok (length (marker_str mk) + pad) (NL :: l2 :: more)).
-      { right. exists l2, more. split; [reflexivity|]. split; [apply Hcont; lia|exact Hmark]. }
-      assert (Hpad : (1 <= pad <= 4)%nat) by (split; assumption).
-      rewrite try_types_list_tail by assumption.
-      rewrite start_read_list_tail by assumption.
-      change (map render_line (SLine 0 c0 body0 :: rest)) with (text_of (SLine 0 c0 body0 :: rest)). rewrite <- El.
-      rewrite (HQ ts ln st Hs Hall (children_depth ts f' Hd)).
-      rewrite pre_of_item. cbn [length st_after]. rewrite map_length.
-      destruct md; [rewrite andb_false_r; reflexivity|]. rewrite pre_seq_length. unfold nlines. cbn [negb andb]. rewrite andb_diag. reflexivity.
+    - apply (C_list f HQ (FItem mk pad ts) ln st eq_refl Hw Hd).
+    - apply (C_list f HQ (FMore mk pad ts next) ln st eq_refl Hw Hd).
     - destruct (head_wf lv hc hb Hw) as [((H1 & _) & _) _]. split; [rewrite head_text by exact H1; discriminate|].
       intros B _. rewrite head_try by exact Hw. rewrite head_text by exact H1. reflexivity.
     - split; [rewrite rule_text; discriminate|]. intros B _. rewrite rule_try by exact Hw. rewrite rule_text. reflexivity.
@@ -539,7 +874,7 @@ Section Main.
       change (map spell (t1 :: t2 :: r)) with (spell t1 :: spell t2 :: map spell r). rewrite text_join.
       destruct (HC t1 ln st Hw1 Hd1) as (Hne & Ht).
       assert (Hfol : follower_ok t1 (text_of (join_blank (spell t2 :: map spell r)))).
-      { destruct (is_item t1) eqn:E1; [|left; exact E1]. right.
+      { destruct (is_item t1) eqn:E1; [|left; exact E1]. right. right.
         cbn [andb] in Hi. cbn [forallb] in Hallr. apply andb_true_iff in Hallr as [Hw2 _].
         destruct (first_line_follower t2 Hi Hw2) as (l2 & more & E2 & Hc2 & Hm2).
         exists l2, (more ++ text_of (flat_map (fun y => SBlank :: y) (map spell r))). split; [|split; assumption].
@@ -554,9 +889,59 @@ Section Main.
         destruct md; reflexivity.
   Qed.
 
-  Lemma P_succ f : Q f -> P (S f).
+  (* the same sequence when one more blank line follows it (the content of a list item that is not the last) *)
+  Lemma QN_from f : C f -> QN f.
   Proof.
-    intros HQ t ln st Hw Hd. destruct t as [c body more|ch n content|ts|mk pad ts|lv hc hb|rc rn|e0 epre ech edbl ew epost].
+    intros HC. intros ts. induction ts as [|t1 r IH]; intros ln st Hs Hall Hd; [discriminate|].
+    cbn [forallb] in Hall. apply andb_true_iff in Hall as [Hw1 Hallr]. inversion Hd as [|? ? Hd1 Hdr]; subst.
+    destruct (HC t1 ln st Hw1 Hd1) as (Hne & Ht).
+    assert (Hht : nlines (length (text_of (spell t1))) = height t1) by (unfold height, text_of, nlines; rewrite map_length; reflexivity).
+    destruct r as [|t2 r].
+    - cbn [map join_blank flat_map]. rewrite app_nil_r.
+      assert (Hfol : follower_ok t1 []) by (right; left; reflexivity).
+      assert (E0 : tokenize_block types (S f) [] (ln + nlines (length (text_of (spell t1))) + 1) (st_after st t1) = ([], false, st_after st t1)) by reflexivity.
+      rewrite (seq_step types f md Hblank _ _ ln st _ _ _ _ _ Hne (Ht _ Hfol) E0).
+      rewrite Hht. cbn [pre_seq st_seq fold_left app]. rewrite app_nil_r, orb_false_r. unfold height. reflexivity.
+    - cbn [seq_ok_b] in Hs. apply andb_true_iff in Hs as [Hi Hsr]. apply negb_true_iff in Hi.
+      change (map spell (t1 :: t2 :: r)) with (spell t1 :: spell t2 :: map spell r). rewrite text_join.
+      assert (Hfol : follower_ok t1 (text_of (join_blank (spell t2 :: map spell r)) ++ [NL])).
+      { destruct (is_item t1) eqn:E1; [|left; exact E1]. right. right.
+        cbn [andb] in Hi. cbn [forallb] in Hallr. apply andb_true_iff in Hallr as [Hw2 _].
+        destruct (first_line_follower t2 Hi Hw2) as (l2 & more & E2 & Hc2 & Hm2).
+        exists l2, ((more ++ text_of (flat_map (fun y => SBlank :: y) (map spell r))) ++ [NL]). split; [|split; assumption].
+        unfold join_blank, text_of in *. rewrite map_app, E2. reflexivity. }
+      specialize (IH (ln + nlines (length (text_of (spell t1))) + 1) (st_after st t1) Hsr Hallr Hdr).
+      change (spell t2 :: map spell r) with (map spell (t2 :: r)) in *.
+      rewrite <- app_assoc. cbn [app].
+      rewrite (seq_step types f md Hblank _ _ ln st _ _ _ _ _ Hne (Ht _ Hfol) IH).
+      rewrite Hht. cbn [pre_seq st_seq fold_left].
+      assert (El : ln + Z.of_nat (length (join_blank (spell t1 :: map spell (t2 :: r)))) = ln + height t1 + 1 + Z.of_nat (length (join_blank (map spell (t2 :: r))))).
+      { unfold height, join_blank. cbn [map flat_map]. rewrite !app_length. cbn [length app]. rewrite ?app_length. lia. }
+      rewrite El. rewrite orb_diag. cbn [app]. rewrite <- app_assoc. reflexivity.
+  Qed.
+
+  Lemma tokenize_of_try f A ln st p st' : A <> [] ->
+    try_types types (tokenize_block types f) types A ln st = Some (p, length A, st') ->
+    tokenize_block types (S f) A ln st = ([p], false, st').
+  Proof.
+    intros Hne T. destruct A as [|x X]; [contradiction|]. rewrite tokenize_S. cbn [dispatch_loop]. rewrite T.
+    replace (skipn (length (x :: X)) (x :: X)) with (@nil str) by (symmetry; apply skipn_all).
+    cbn [length]. destruct (length X); reflexivity.
+  Qed.
+
+  Lemma P_list f : Q f -> QN f -> forall t ln st, is_item t = true -> wf_b t = true -> (depth t <= S f)%nat ->
+    tokenize_block types (S (S f)) (text_of (spell t)) ln st = ([pre_of md ln t], false, st_after st t).
+  Proof.
+    intros HQ HQN t ln st Hi Hw Hd.
+    destruct (chain_first_line t Hi Hw) as (_ & l2 & more & i & p & ct & E2 & _ & _ & Ht2 & m0 & t0 & -> & Hm0).
+    pose proof (chain_start_read f HQ HQN t [] ln st Hi Hw Hd (or_introl eq_refl)) as SR. rewrite app_nil_r in SR.
+    apply tokenize_of_try; [rewrite E2; discriminate|].
+    rewrite E2 in *. apply (try_types_list_gen _ m0 t0 _ _ ln st Hm0 Ht2 SR types Hl).
+  Qed.
+
+  Lemma P_succ f : Q f -> QN f -> P (S f).
+  Proof.
+    intros HQ HQN t ln st Hw Hd. destruct t as [c body more|ch n content|ts|mk pad ts|mk pad ts next|lv hc hb|rc rn|e0 epre ech edbl ew epost].
     - rewrite para_tokenize by exact Hw. reflexivity.
     - rewrite fence_tokenize by exact Hw. reflexivity.
     - cbn [wf_b] in Hw. repeat rewrite andb_true_iff in Hw. destruct Hw as [[Hs Hall] Hg].
@@ -564,16 +949,8 @@ Section Main.
       cbn [spell]. rewrite text_quote.
       rewrite (quote_wraps types true _ (S f) ln st Hq Hne Hok).
       rewrite (HQ ts ln (mkPs false) Hs Hall (children_depth ts f Hd)). cbn [fst]. rewrite pre_of_quote. reflexivity.
-    - cbn [wf_b] in Hw. repeat rewrite andb_true_iff in Hw. destruct Hw as [[[[[[Hmk Hp1] Hp4] Hs] Hall] Hg] Hth].
-      apply marker_ok_reflect in Hmk. apply Nat.leb_le in Hp1, Hp4. apply negb_true_iff in Hth.
-      destruct (good_lines _ Hg) as (c0 & body0 & rest & El & Hc0 & Hb0 & Hrest & Hlast & _ & _).
-      cbn [spell]. rewrite El in *. rewrite text_item by exact Hmk. cbn [item_first_line] in Hth.
-      pose proof (list_wraps types mk pad c0 body0 rest (S f) ln st Hl Hmk (conj Hp1 Hp4) Hc0 Hb0 Hrest Hlast Hth) as LW.
-      cbv zeta in LW. rewrite LW. clear LW.
-      change (map render_line (SLine 0 c0 body0 :: rest)) with (text_of (SLine 0 c0 body0 :: rest)). rewrite <- El.
-      rewrite (HQ ts ln st Hs Hall (children_depth ts f Hd)).
-      rewrite pre_of_item.
-      destruct md; [rewrite andb_false_r; reflexivity|]. rewrite pre_seq_length. unfold nlines. cbn [negb andb]. rewrite andb_diag. reflexivity.
+    - apply (P_list f HQ HQN (FItem mk pad ts) ln st eq_refl Hw Hd).
+    - apply (P_list f HQ HQN (FMore mk pad ts next) ln st eq_refl Hw Hd).
     - rewrite head_tokenize by exact Hw. reflexivity.
     - rewrite rule_tokenize by exact Hw. reflexivity.
     - rewrite em_tokenize by exact Hw. reflexivity.
@@ -581,7 +958,7 @@ Section Main.
 
   Lemma P_zero : P 0.
   Proof.
-    intros t ln st Hw Hd. destruct t as [c body more|ch n content|ts|mk pad ts|lv hc hb|rc rn|e0 epre ech edbl ew epost]; [| |cbn [depth] in Hd; lia|cbn [depth] in Hd; lia| | |].
+    intros t ln st Hw Hd. destruct t as [c body more|ch n content|ts|mk pad ts|mk pad ts next|lv hc hb|rc rn|e0 epre ech edbl ew epost]; [| |cbn [depth] in Hd; lia|cbn [depth] in Hd; lia|cbn [depth] in Hd; lia| | |].
     - rewrite para_tokenize by exact Hw. reflexivity.
     - rewrite fence_tokenize by exact Hw. reflexivity.
     - rewrite head_tokenize by exact Hw. reflexivity.
@@ -589,12 +966,15 @@ Section Main.
     - rewrite em_tokenize by exact Hw. reflexivity.
   Qed.
 
-  Theorem fragment_all : forall f, P f /\ Q f.
+  Theorem fragment_all : forall f, P f /\ Q f /\ QN f.
   Proof.
-    induction f as [|f [IHP IHQ]].
-    - assert (HP : P 0) by exact P_zero. split; [exact HP|]. apply Q_from; [exact HP|]. apply C_from. intros f' E. discriminate.
-    - assert (HP : P (S f)) by (apply P_succ; exact IHQ). split; [exact HP|].
-      apply Q_from; [exact HP|]. apply C_from. intros f' E. injection E as <-. exact IHQ.
+    induction f as [|f (IHP & IHQ & IHN)].
+    - assert (HP : P 0) by exact P_zero.
+      assert (HC : C 0) by (apply C_from; intros f' E; discriminate).
+      split; [exact HP|]. split; [apply Q_from; assumption|apply QN_from; exact HC].
+    - assert (HP : P (S f)) by (apply P_succ; assumption).
+      assert (HC : C (S f)) by (apply C_from; intros f' E; injection E as <-; split; assumption).
+      split; [exact HP|]. split; [apply Q_from; assumption|apply QN_from; exact HC].
   Qed.
 
   Theorem fragment_tree t f ln st : wf_b t = true -> (depth t <= f)%nat ->
@@ -662,6 +1042,14 @@ Section TokOf.
       let loose := negb md && (1 <? Z.of_nat (length ts)) in
       List (if slen leader =? 1 then None else Some (int_of_digits (removelast leader))) loose
            [ListItem (mkItem leader 0 (Z.of_nat (length leader + pad)) loose) (seq ts)]
+    | FMore mk pad ts next =>
+      (* an item that is not the last: the blank line after it makes it loose (or is its last child, a BlankLine) *)
+      let leader := marker_str mk in
+      let item := ListItem (mkItem leader 0 (Z.of_nat (length leader + pad)) (negb md)) (seq ts ++ blank_tok) in
+      match tok_of next with
+      | List _ lo items => List (if slen leader =? 1 then None else Some (int_of_digits (removelast leader))) (negb md || lo) (item :: items)
+      | other => other
+      end
     | FHead lv c body => Heading (Z.of_nat lv) [] [RawText (c :: body)]
     | FRule c n => ThematicBreak (repeat c (S (S (S n))))
     | FEm c0 pre ch double w post =>
@@ -730,11 +1118,15 @@ Section Tokens.
     rewrite T. reflexivity.
   Qed.
 
+  Lemma kids_blank ln : flat_map (fun e => match build span_types keep fn e with Some t => [t] | None => [] end) (blank_entry md ln) = blank_tok md.
+  Proof. unfold blank_entry, blank_tok. destruct md; reflexivity. Qed.
+
   Lemma build_fragment : forall f t ln, (depth t <= f)%nat -> wf_b t = true ->
     build span_types keep fn (pre_of md ln t) = Some (tok_of md t).
   Proof.
-    induction f as [|f IH]; intros t ln Hd Hw.
-    - destruct t as [c body more|ch n content|ts|mk pad ts|lv hc hb|rc rn|e0 epre ech edbl ew epost]; [apply build_para; exact Hw|reflexivity|cbn [depth] in Hd; lia|cbn [depth] in Hd; lia|apply build_head; exact Hw|apply build_rule; exact Hw|apply build_em; exact Hw].
+    induction f as [|f IH].
+    - intros t ln Hd Hw.
+      destruct t as [c body more|ch n content|ts|mk pad ts|mk pad ts next|lv hc hb|rc rn|e0 epre ech edbl ew epost]; [apply build_para; exact Hw|reflexivity|cbn [depth] in Hd; lia|cbn [depth] in Hd; lia|cbn [depth] in Hd; lia|apply build_head; exact Hw|apply build_rule; exact Hw|apply build_em; exact Hw].
     - assert (Kids : forall ts ln, Forall (fun t => (depth t <= f)%nat) ts -> forallb wf_b ts = true ->
                 flat_map (fun e => match build span_types keep fn e with Some t => [t] | None => [] end) (pre_seq md ln ts) = tok_seq md ts).
       { induction ts as [|t0 r IHr]; intros ln0 Hds Hws; [reflexivity|].
@@ -742,7 +1134,8 @@ Section Tokens.
         cbn [pre_seq flat_map tok_seq]. rewrite (IH t0 ln0) by assumption. cbn [app]. f_equal.
         destruct r as [|t1 r']; [reflexivity|]. rewrite flat_map_app. rewrite IHr by assumption.
         f_equal. unfold blank_entry, blank_tok. destruct md; reflexivity. }
-      destruct t as [c body more|ch n content|ts|mk pad ts|lv hc hb|rc rn|e0 epre ech edbl ew epost]; [apply build_para; exact Hw|reflexivity| | |apply build_head; exact Hw|apply build_rule; exact Hw|apply build_em; exact Hw].
+      intros t. induction t as [c body more|ch n content|ts|mk pad ts|mk pad ts next IHn|lv hc hb|rc rn|e0 epre ech edbl ew epost]; intros ln Hd Hw;
+        [apply build_para; exact Hw|reflexivity| | | |apply build_head; exact Hw|apply build_rule; exact Hw|apply build_em; exact Hw].
       + cbn [wf_b] in Hw. repeat rewrite andb_true_iff in Hw. destruct Hw as [[_ Hall] _].
         rewrite pre_of_quote. cbn [build]. rewrite Kids; [reflexivity| |exact Hall].
         apply children_depth. cbn [depth] in Hd. exact Hd.
@@ -750,6 +1143,16 @@ Section Tokens.
         rewrite pre_of_item. cbn [build flat_map app existsb i_loose i_leader orb].
         rewrite Kids; [rewrite orb_false_r; reflexivity| |exact Hall].
         apply children_depth. cbn [depth] in Hd. exact Hd.
+      + cbn [wf_b] in Hw. repeat rewrite andb_true_iff in Hw. destruct Hw as [[[[[[[[[_ _] _] _] Hall] _] _] Hin] _] Hwn].
+        cbn [depth] in Hd.
+        assert (Hd1 : Forall (fun t => (depth t <= f)%nat) ts) by (apply children_depth; lia).
+        assert (Hd2 : (depth next <= S f)%nat) by lia.
+        rewrite pre_of_more. cbv zeta.
+        set (ln' := ln + Z.of_nat (length (item_lines mk pad (join_blank (map spell ts)))) + 1).
+        specialize (IHn ln' Hd2 Hwn). rewrite (pre_of_chain md next ln' Hin Hwn) in IHn |- *.
+        cbn [build] in IHn. injection IHn as IHn.
+        cbn [tok_of]. fold (tok_seq md ts). rewrite <- IHn.
+        cbn [build flat_map app existsb i_loose i_leader]. rewrite flat_map_app, (Kids ts ln Hd1 Hall), kids_blank. reflexivity.
   Qed.
 End Tokens.
 
@@ -774,15 +1177,20 @@ Qed.
 (* the trees of the fragment define no link reference *)
 Lemma defs_of_fragment md : forall f t ln, (depth t <= f)%nat -> defs_of (pre_of md ln t) = [].
 Proof.
-  induction f as [|f IH]; intros t ln Hd.
-  - destruct t; try reflexivity; cbn [depth] in Hd; lia.
+  induction f as [|f IH].
+  - intros t ln Hd. destruct t; try reflexivity; cbn [depth] in Hd; lia.
   - assert (Kids : forall ts ln, Forall (fun t => (depth t <= f)%nat) ts -> flat_map defs_of (pre_seq md ln ts) = []).
     { induction ts as [|t0 r IHr]; intros ln0 Hds; [reflexivity|]. inversion Hds; subst.
       cbn [pre_seq flat_map]. rewrite (IH t0 ln0) by assumption. cbn [app].
       destruct r as [|t1 r']; [reflexivity|]. rewrite flat_map_app, IHr by assumption. unfold blank_entry. destruct md; reflexivity. }
-    destruct t as [c body more|ch n content|ts|mk pad ts|lv hc hb|rc rn|e0 epre ech edbl ew epost]; try reflexivity.
+    intros t. induction t as [c body more|ch n content|ts|mk pad ts|mk pad ts next IHn|lv hc hb|rc rn|e0 epre ech edbl ew epost]; intros ln Hd; try reflexivity.
     + rewrite pre_of_quote. cbn [defs_of]. apply Kids. apply children_depth. cbn [depth] in Hd. exact Hd.
     + rewrite pre_of_item. cbn [defs_of flat_map]. rewrite app_nil_r. apply Kids. apply children_depth. cbn [depth] in Hd. exact Hd.
+    + cbn [depth] in Hd. rewrite pre_of_more. cbv zeta.
+      specialize (IHn (ln + Z.of_nat (length (item_lines mk pad (join_blank (map spell ts)))) + 1) ltac:(lia)).
+      destruct (pre_of md _ next); try exact IHn.
+      cbn [defs_of flat_map] in *. rewrite IHn, app_nil_r, flat_map_app, Kids by (apply children_depth; lia).
+      unfold blank_entry. destruct md; reflexivity.
 Qed.
 
 Lemma footnotes_of_fragment md t ln : footnotes_of [pre_of md ln t] = [].
